@@ -37,7 +37,9 @@ type c02StabResult struct {
 
 var c02StabAlphabet = []string{"k-merge", "k-cleave", "k-splitsv", "k-rawmutate", "k-renumber", "s-merge", "k-kvedit", "k-annedit", "k-roiedit", "deepen", "mergenode", "newinstance", "delinstance",
 	// o-*: edits in an OLDER sibling branch of C (created before C, left open: its version id is smaller than C's)
-	"o-kvedit", "o-lmedit", "o-annedit", "o-roiedit"}
+	"o-kvedit", "o-lmedit", "o-annedit", "o-roiedit",
+	// neuron annotations: the branch head is served from an in-memory copy that commits and merges hand over
+	"k-njedit", "o-njedit"}
 
 func c02StabReads() map[string][]string {
 	return map[string][]string{
@@ -46,15 +48,20 @@ func c02StabReads() map[string][]string {
 		"kv":  {"keys", "key/k1", "key/k2", "key/k3", "key/k4"},
 		"ann": {"all-elements", "tag/t1", "tag/t2", "elements/200_200_200/0_0_0"},
 		"roi": {"roi"},
+		"nj":  {"keys", "key/1", "key/2", "key/3", "all", "fields"},
 	}
 }
 
 func c02StabSnap(uuid string) string {
 	var sb strings.Builder
 	reads := c02StabReads()
-	for _, inst := range []string{"lm", "kv", "ann", "roi"} {
+	for _, inst := range []string{"lm", "kv", "ann", "roi", "nj"} {
 		for _, rd := range reads[inst] {
 			x := vsrv.Get("node/" + uuid + "/" + inst + "/" + rd)
+			if inst == "nj" && rd != "fields" {
+				fmt.Fprintf(&sb, "%s/%s=%s|", inst, rd, njNormalize(x.Code, x.Body))
+				continue
+			}
 			fmt.Fprintf(&sb, "%s/%s=%s|", inst, rd, lmNormalize(rd, x.Code, x.Body))
 		}
 	}
@@ -96,6 +103,9 @@ func c02StabWorker(args []string) int {
 		vsrv.NewInstance(root, "annotation", "ann", nil)
 		vsrv.NewInstance(root, "roi", "roi", map[string]string{"BlockSize": "4,4,4"})
 		vsrv.NewInstance(root, "keyvalue", "doomed", nil)
+		vsrv.NewInstance(root, "neuronjson", "nj", nil)
+		vsrv.PostS("node/"+root+"/nj/key/1?u=t", `{"bodyid":1,"a":"r"}`)
+		vsrv.PostS("node/"+root+"/nj/key/2?u=t", `{"bodyid":2,"a":"r"}`)
 		base := newLMVol([3]int{0, 0, 0}, [3]int{32, 32, 16})
 		base.fill([3]int{0, 0, 0}, [3]int{16, 32, 16}, 1)
 		base.fill([3]int{16, 0, 0}, [3]int{32, 16, 16}, 2)
@@ -120,10 +130,21 @@ func c02StabWorker(args []string) int {
 		vsrv.PostS("node/"+C+"/ann/elements", `[{"Pos":[70,10,10],"Kind":"Note","Tags":["t2"],"Prop":{"a":"b"},"Rels":[]}]`)
 		vsrv.PostS("node/"+C+"/roi/roi", "[[2,2,2,4]]")
 		vsrv.PostS("node/"+C+"/note", `{"note":"the note"}`)
+		vsrv.PostS("node/"+C+"/nj/key/1?u=t", `{"bodyid":1,"b":"c"}`)
 		vsrv.Settle(C, "lm", "ann")
 		vsrv.Commit(C)
 		if j.ReadEarly {
 			res.Snap = c02StabSnap(C)
+		}
+		// versions committed by later operations (deepen, mergenode) are held to the same standard from then on
+		type laterCommitted struct{ uuid, snap, by string }
+		var later []laterCommitted
+		commitLater := func(u, by string) {
+			vsrv.Settle(u, "lm", "ann")
+			vsrv.Commit(u)
+			if j.ReadEarly {
+				later = append(later, laterCommitted{u, c02StabSnap(u), by})
+			}
 		}
 		K, S := "", ""
 		getK := func() string {
@@ -176,15 +197,12 @@ func c02StabWorker(args []string) int {
 				vsrv.Delete("node/" + getK() + "/roi/roi")
 			case "deepen":
 				k := getK()
-				vsrv.Settle(k, "lm", "ann")
-				vsrv.Commit(k)
+				commitLater(k, op)
 				K, _ = vsrv.NewVersion(k)
 			case "mergenode":
 				k, s := getK(), getS()
-				vsrv.Settle(k, "lm", "ann")
-				vsrv.Settle(s, "lm", "ann")
-				vsrv.Commit(k)
-				vsrv.Commit(s)
+				commitLater(k, op)
+				commitLater(s, op)
 				m, err := vsrv.Merge(k, s)
 				if err == nil {
 					K, S = m, ""
@@ -208,6 +226,14 @@ func c02StabWorker(args []string) int {
 			case "o-annedit":
 				vsrv.Delete("node/" + O + "/ann/element/20_20_20")
 				vsrv.PostS("node/"+O+"/ann/elements", `[{"Pos":[71,11,11],"Kind":"Note","Tags":["t2"],"Prop":{},"Rels":[]}]`)
+			case "k-njedit", "o-njedit":
+				u := O
+				if op == "k-njedit" {
+					u = getK()
+				}
+				vsrv.PostS("node/"+u+"/nj/key/3?u=t", `{"bodyid":3,"a":"later"}`)
+				vsrv.PostS("node/"+u+"/nj/key/1?u=t", `{"bodyid":1,"a":"later"}`)
+				vsrv.Delete("node/" + u + "/nj/key/2?u=t")
 			case "o-roiedit":
 				vsrv.PostS("node/"+O+"/roi/roi", "[[5,5,5,6]]")
 			}
@@ -222,6 +248,12 @@ func c02StabWorker(args []string) int {
 				if s := c02StabSnap(C); s != res.Snap {
 					res.Bad = append(res.Bad, fmt.Sprintf("%d\t%s", i, c02StabDiff(res.Snap, s)))
 					res.Snap = s
+				}
+				for li := range later {
+					if s := c02StabSnap(later[li].uuid); s != later[li].snap {
+						res.Bad = append(res.Bad, fmt.Sprintf("%d\tversion-committed-by-%s:%s", i, later[li].by, c02StabDiff(later[li].snap, s)))
+						later[li].snap = s
+					}
 				}
 			}
 		}
